@@ -11,7 +11,7 @@ LEVEL_TEXT = ("Static structural proof of necessary conditions: (R6.1) alias-bas
               "combiner and the curly-brace splicer treat the same set of cell texts as 'missing' ({'', 'n/a'}), and every "
               "column transformer can return only members of that set for a missing cell. The content of the assembled "
               "annotation, ordering and delimiter well-formedness in general are NOT decided.")
-LEVEL_EXTRA = 'Added after the seeded evaluation: (R6.2) the missing marker is compared as a whole cell, never removed as a substring; (R6.3) every reference substitution goes through the n/a-aware splicer; (R6.4) one reference pattern (text and flags) for assembly and sidecar validation. (R6.5) text interpolated into a regular-expression pattern in the assembly modules goes through re.escape; a substituting transformer steps aside for every missing cell text. (R6.6) the replacement handed to re.sub in the assembly modules is a constant or a function.'
+LEVEL_EXTRA = 'Added after the seeded evaluation: (R6.2) the missing marker is compared as a whole cell, never removed as a substring; (R6.3) every reference substitution goes through the n/a-aware splicer; (R6.4) one reference pattern (text and flags) for assembly and sidecar validation. (R6.5) text interpolated into a regular-expression pattern in the assembly modules goes through re.escape; a substituting transformer steps aside for every missing cell text. (R6.6) the replacement handed to re.sub in the assembly modules is a constant or a function. (R6.7) reset_column_mapper rebinds self._sidecar on every path. (R6.8) the categorical lookup applies no case normalisation.'
 
 
 def sentinels(expr, var):
@@ -300,3 +300,36 @@ def run(ctx):
                       "transformer %s returns %r for a missing/unknown cell, which is not in the missing set %s the combiner "
                       "and splicer recognise" % (h.short, c, sorted(map(repr, comb))),
                       desc="%s returns missing text %r" % (h.short, c))
+
+    # ---------------- R6.7: the table's own sidecar follows every reset of its column mapper
+    ctx.rule("R6.7", "reset_column_mapper rebinds self._sidecar on every path")
+    from sa.dom import view as _view6
+    rcm = prog.find_class("TabularInput").methods.get("reset_column_mapper")
+    if rcm is None:
+        raise AnalysisError("anchor TabularInput.reset_column_mapper vanished")
+    ctx.saw(rcm)
+    v67 = _view6(ctx, rcm)
+    stores67 = [n_ for n_ in v67.cfg.nodes if n_.kind == "stmt" and isinstance(n_.ast, ast.Assign)
+                and any(isinstance(t, ast.Attribute) and norm(t) == "self._sidecar" for t in n_.ast.targets)]
+    ctx.floor("R6.7", "stores to self._sidecar in reset_column_mapper", len(stores67), 1)
+    r67 = v67.reachable_from_entry(avoid=set(stores67))
+    ctx.check(v67.cfg.exit not in r67, "R6.7", rcm.qualname, "path without rebinding", loc(rcm, rcm.node),
+              "reset_column_mapper can finish without rebinding self._sidecar: the transformers then come from the new sidecar while "
+              "get_column_refs() still reads the old one, so `{column}` references are left unexpanded or the wrong columns are spliced",
+              desc="every path rebinds self._sidecar")
+
+    # ---------------- R6.8: a categorical cell selects the sidecar entry with exactly its own text
+    ctx.rule("R6.8", "the categorical lookup of ColumnMapper applies no case normalisation to keys or cells")
+    cmp6 = prog.find_class("ColumnMapper")
+    n68 = 0
+    for m in cmp6.methods.values():
+        if m.name not in ("_category_handler", "get_transformers"):
+            continue
+        ctx.saw(m)
+        n68 += 1
+        bad = [x for x in ast.walk(m.node) if isinstance(x, ast.Call) and isinstance(x.func, ast.Attribute)
+               and x.func.attr in ("casefold", "lower", "upper", "title", "capitalize", "swapcase")]
+        ctx.check(not bad, "R6.8", m.qualname, bad[0] if bad else "case normalisation", loc(m, bad[0] if bad else m.node),
+                  "category keys / cell texts are case-normalised: of two keys that differ only in letter case one is lost, and a cell "
+                  "with an unknown key that case-matches a key takes that key's annotation", desc="%s: keys compared as written" % m.short)
+    ctx.floor("R6.8", "categorical lookup functions of ColumnMapper", n68, 2)
